@@ -8,6 +8,8 @@ import (
 
 func msDur(ms int64) time.Duration { return time.Duration(ms) * time.Millisecond }
 
+func sleepMs(ms int) { time.Sleep(time.Duration(ms) * time.Millisecond) }
+
 // judge applies op to the reference and compares the observed result and store contents.
 func judge(r *Ref, o Op, got bool, errStr string, d Dump) (class, msg string) {
 	if errStr != "" {
@@ -36,32 +38,28 @@ type Case struct {
 	Path []Op `json:"path"`
 }
 
-// runHistory runs the history; a run in which the redis client re-sent a command is repeated, and
-// a failing verdict must reproduce twice more before it is believed (else: ERROR, exit 2).
+// runHistory runs the history; a run in which the redis client re-sent a command (fence.go) is
+// repeated — if that persists it is no accident but the implementation's behaviour and the last run
+// is judged as it is. A failing verdict must reproduce twice more before it is believed (else:
+// ERROR nondeterminism, exit 2).
 func runHistory(path []Op, verbose bool) histResult {
 	e := getEnv()
-	var res histResult
-	for attempt := 0; ; attempt++ {
-		e.resent.Store(false)
-		res = runHistoryOnce(path, verbose)
-		if !e.resent.Load() {
-			break
+	once := func(v bool) histResult {
+		var res histResult
+		for attempt := 0; attempt < 4; attempt++ {
+			e.resent.Store(false)
+			res = runHistoryOnce(path, v)
+			if !e.resent.Load() {
+				break
+			}
+			fmt.Fprintf(os.Stderr, "note: redis client re-sent a command during %v (attempt %d, verdict %q)\n", path, attempt, res.class)
 		}
-		fmt.Fprintf(os.Stderr, "note: redis client re-sent a command during %v (verdict %q discarded, history re-executed)\n", path, res.class)
-		if attempt >= 5 {
-			fmt.Printf("ERROR the redis client keeps re-sending commands (overloaded machine?); history %v\n", path)
-			os.Exit(2)
-		}
+		return res
 	}
+	res := once(verbose)
 	if res.err != "" {
 		for i := 0; i < 2; i++ {
-			e.resent.Store(false)
-			again := runHistoryOnce(path, false)
-			if e.resent.Load() {
-				i--
-				continue
-			}
-			if again.class != res.class {
+			if again := once(false); again.class != res.class {
 				fmt.Printf("ERROR nondeterminism: history %v gave class %q, then %q\n", path, res.class, again.class)
 				os.Exit(2)
 			}
